@@ -1389,3 +1389,6 @@ M("c07-location-from-advanced-ip", ["C07"], VM,
 M("c08-converted-lists-unlinked", ["C08"], CX,
   "                arr = JSArray()\n                arr._prototype = self._array_prototype\n", "                arr = JSArray()\n",
   [("C08", "C08-R23", "_to_js")], note="fix 1cb9be0 reverted for converted lists")
+M("c17-typed-array-from-typed-array-empty", ["C17"], CX,
+  "            elif isinstance(arg, (JSArray, JSTypedArray)):\n", "            elif isinstance(arg, JSArray):\n",
+  [("C17", "C17-R27", "typed array")], note="fix reverted: new Uint8Array(typedArray) is empty")
